@@ -31,6 +31,10 @@ THEOREMS += ["PyOak.C06." + t for t in [
     "isRoot_iff", "isRoot_chain", "isRoot_chain_edge", "parentInfo_none_iff", "queries_total",
     "DemoT.chain_unique_needs_noRepeat"]]
 THEOREMS += ["PyOak.C06X." + t for t in ["walkDown_sound", "follow_sound", "follow_mem", "follow_steps_unique"]]
+# is_ancestor as a strict order on the objects of a tree; parent recurrences of get_ancestors / get_depth (Props/C06Order.lean)
+THEOREMS += ["PyOak.C06." + t for t in [
+    "chain_prefix", "chain_of_member", "isAncestor_irrefl", "isAncestor_parent", "isAncestor_trans", "isAncestor_asymm",
+    "ancestors_parent", "depth_parent", "depth_eq_ancestors"]]
 RULE = ("seeded zoo trees without repeated objects (content-identical twins at different positions included), "
         "every node as query argument for is_in_tree/is_root/get_parent/get_parent_info/get_ancestors/get_xpath/"
         "get_depth, sampled pairs for is_ancestor/relative get_depth/get_first_ancestor_of_type, foreign nodes that "
